@@ -310,7 +310,9 @@ class World:
         self._callers = None
 
     @staticmethod
-    def load(paths):
+    def load(paths, known=None):
+        """known: set of body ids of the reference tree; functions outside it (freshly extracted helpers) are inlined
+        into their same-crate callers so that intraprocedural rules look through them"""
         w = World()
         for p in sorted(paths):
             d = json.load(open(p))
@@ -342,6 +344,9 @@ class World:
                 f = dict(f)
                 f["crate"] = crate
                 w.fns[f["id"]] = f
+        w.inlined = {}
+        if known is not None:
+            _inline_new_helpers(w, known)
         return w
 
     def body(self, id):
@@ -408,5 +413,151 @@ class World:
         return any(im.get("self_adt") == adt and im.get("trait") == trait for im in self.impls)
 
 
-def load_dir(d):
-    return World.load(glob.glob(os.path.join(d, "*.json")))
+def load_dir(d, known=None):
+    return World.load(glob.glob(os.path.join(d, "*.json")), known=known)
+
+
+# ---------------------------------------------------------------- inlining of freshly extracted helpers
+
+def _shift_place(p, lo, bo):
+    q = {"l": p["l"] + lo}
+    if p.get("p"):
+        pr = []
+        for e in p["p"]:
+            if isinstance(e, dict) and "ix" in e:
+                e = dict(e)
+                e["ix"] = e["ix"] + lo
+            pr.append(e)
+        q["p"] = pr
+    return q
+
+
+def _shift_op(o, lo, bo):
+    if o is None:
+        return o
+    if "c" in o:
+        return {"c": _shift_place(o["c"], lo, bo)}
+    if "m" in o:
+        return {"m": _shift_place(o["m"], lo, bo)}
+    return o
+
+
+def _shift_rv(r, lo, bo):
+    r = dict(r)
+    for k in ("o", "a", "b"):
+        if k in r and isinstance(r[k], dict):
+            r[k] = _shift_op(r[k], lo, bo)
+    if "p" in r and isinstance(r["p"], dict):
+        r["p"] = _shift_place(r["p"], lo, bo)
+    if "ops" in r:
+        r["ops"] = [_shift_op(x, lo, bo) for x in r["ops"]]
+    return r
+
+
+def _shift_term(t, lo, bo):
+    t = dict(t)
+    for k in ("t", "u", "resume", "drop", "real", "imag", "else"):
+        if k in t and isinstance(t[k], int):
+            t[k] = t[k] + bo
+    if "targets" in t:
+        t["targets"] = [[v, b + bo] for v, b in t["targets"]]
+    for k in ("d", "p", "ra"):
+        if k in t and isinstance(t[k], dict) and "l" in t[k]:
+            t[k] = _shift_place(t[k], lo, bo)
+    if t["k"] == "switch":
+        t["d"] = _shift_op(t["d"], lo, bo)
+    for k in ("c", "v", "fo"):
+        if k in t and isinstance(t[k], dict):
+            t[k] = _shift_op(t[k], lo, bo)
+    if "args" in t:
+        t["args"] = [_shift_op(x, lo, bo) for x in t["args"]]
+    return t
+
+
+def _inline_new_helpers(w, known, max_rounds=3, max_blocks=400):
+    new = {i for i, b in w.bodies.items() if i not in known and b.kind in ("Fn", "AssocFn") and not b.coroutine and not b.is_async}
+    if not new:
+        return
+    # callers per new helper (for closure re-parenting)
+    ncallers = {}
+    for b in w.bodies.values():
+        for bl in b.blocks:
+            t = bl["term"]
+            if t["k"] == "call" and t.get("f") in new:
+                ncallers.setdefault(t["f"], set()).add(b.id)
+    for _ in range(max_rounds):
+        changed = False
+        for b in list(w.bodies.values()):
+            if len(b.blocks) > max_blocks:
+                continue
+            i = 0
+            while i < len(b.blocks):
+                t = b.blocks[i]["term"]
+                if t["k"] == "call" and t.get("f") in new and t["f"] != b.id and w.bodies[t["f"]].crate == b.crate and len(w.bodies[t["f"]].blocks) < 200 and len(b.blocks) < max_blocks:
+                    c = w.bodies[t["f"]]
+                    lo, bo = len(b.locals), len(b.blocks)
+                    b.locals.extend(dict(l) for l in c.locals)
+                    blk = b.blocks[i]
+                    for k, a in enumerate(t["args"]):
+                        blk["st"].append({"p": {"l": lo + k + 1}, "r": {"k": "use", "o": a}, "s": t.get("s", "")})
+                    dest, target = t["d"], t.get("t")
+                    for cb in c.blocks:
+                        nb = {"st": [], "term": None}
+                        if cb.get("cleanup"):
+                            nb["cleanup"] = True
+                        for s_ in cb["st"]:
+                            if "p" in s_:
+                                ns = dict(s_)
+                                ns["p"] = _shift_place(s_["p"], lo, bo)
+                                ns["r"] = _shift_rv(s_["r"], lo, bo)
+                                nb["st"].append(ns)
+                            elif "dead" in s_:
+                                nb["st"].append({"dead": s_["dead"] + lo})
+                        ct = cb["term"]
+                        if ct["k"] == "return":
+                            nb["st"].append({"p": dest, "r": {"k": "use", "o": {"m": {"l": lo}}}, "s": ct.get("s", "")})
+                            nb["term"] = {"k": "goto", "t": target, "s": ct.get("s", "")} if target is not None else {"k": "unreachable", "s": ct.get("s", "")}
+                        else:
+                            nb["term"] = _shift_term(ct, lo, bo)
+                        b.blocks.append(nb)
+                    blk["term"] = {"k": "goto", "t": bo, "s": t.get("s", ""), "inlined": c.id}
+                    w.inlined.setdefault(b.id, []).append(c.id)
+                    b._succ = b._pred = b._defs = None
+                    changed = True
+                    # closures of a helper with a single caller now belong to that caller
+                    if len(ncallers.get(c.id, ())) == 1:
+                        for cl in w.bodies.values():
+                            if cl.parent == c.id:
+                                cl.parent = b.id
+                        w._children = None
+                i += 1
+        if not changed:
+            break
+    # a helper whose every call site was inlined is represented by its callers from now on: rules that sweep "all bodies"
+    # (who-may-write, typestate with a T entry) must not also judge it out of context
+    still_called = set()
+    for b in w.bodies.values():
+        for bl in b.blocks:
+            t = bl["term"]
+            if t["k"] == "call" and t.get("f") in new:
+                still_called.add(t["f"])
+            for s_ in bl["st"]:
+                r = s_.get("r")
+                if r:
+                    for o in [r.get("o"), r.get("a"), r.get("b")] + list(r.get("ops", [])):
+                        if isinstance(o, dict) and o.get("fn") in new:
+                            still_called.add(o["fn"])
+            for a in bl["term"].get("args", ()):
+                if isinstance(a, dict) and a.get("fn") in new:
+                    still_called.add(a["fn"])
+    inlined_everywhere = {c for c in ncallers if c not in still_called}
+    w.removed_helpers = sorted(inlined_everywhere)
+    for c in inlined_everywhere:
+        # keep nested closures of multi-caller helpers attributed to the helper's first caller
+        callers = sorted(ncallers[c])
+        for cl in w.bodies.values():
+            if cl.parent == c:
+                cl.parent = callers[0]
+        w.bodies.pop(c, None)
+    w._children = None
+    w._callers = None
